@@ -1,6 +1,7 @@
 import PnVerif.Lemmas.Safety
 import PnVerif.Lemmas.SafetyWork
 import PnVerif.Lemmas.SafetyWf
+import PnVerif.Lemmas.SafetyStrict
 import PnVerif.Props.C04
 /-
   C19 — memory safety; malformed files fail cleanly: THE HALF THEOREMS CAN CARRY.
@@ -230,6 +231,56 @@ theorem decode_work_bound_partial (c : Nat) (file : Bytes)
     cases hf'
     omega
 
+/-! ### (5) trees that carry the repair of B10-3 / B10-5 / B10-6 (variant `int63`)
+
+  `decodeWholeS true` models ncmpio_hdr_get_NC with patch C19-B10-5-int64-header-fields applied,
+  `decodeWholeS false` the code as it stands.  checks/c19.py detects which one the tree follows from a
+  witness replay (a dimension of length 2^63+3) and tells the driver. -/
+
+/-- `false` is the code as it stands -/
+theorem strict_false_is_current (file : Bytes) : decodeWholeS false file = decodeWhole file :=
+  decodeWholeS_false file
+
+/-- The repaired reader is conservative: what it accepts, the reader as it stands accepts with the same
+    header and layout (it only adds NC_ENOTNC answers), hence an accepted header is self-consistent. -/
+theorem strict_conservative (st : Bool) (file : Bytes) (h : Hdr) (info : Info)
+    (hd : decodeWholeS st file = .ok (h, info)) : decodeWhole file = .ok (h, info) ∧ WF h info :=
+  ⟨decodeWholeS_ok st file h info hd, decode_ok_wf file h info (decodeWholeS_ok st file h info hd)⟩
+
+/-- … and its result does not depend on the read chunk size either -/
+theorem strict_chunk_independent (st : Bool) (c : Nat) (file : Bytes) :
+    decodeChunkedS st c file = decodeWholeS st file :=
+  chunk_independent_S st c file
+
+/-- What the repair buys: in a header the repaired reader accepts, numrecs, every dimension length
+    and every begin are non-negative int64 values and begin + length fits int64 for every variable —
+    the quantities whose signed arithmetic is undefined in the code as it stands (B10-5) and whose
+    negative values are reported to the application (B10-6). -/
+theorem strict_ok_fits63 (file : Bytes) (h : Hdr) (info : Info) (hd : decodeWholeS true file = .ok (h, info)) :
+    h.numrecs ≤ X_INT64_MAX ∧ (∀ d ∈ h.dims, d.size ≤ X_INT64_MAX) ∧
+    (∀ v ∈ h.vars, v.begin ≤ X_INT64_MAX ∧ v.begin + h.varLen v ≤ X_INT64_MAX) := by
+  unfold decodeWholeS at hd
+  cases hm : checkMagic (ztake 12 file) with
+  | error e => rw [hm] at hd; cases hd
+  | ok f =>
+    rw [hm] at hd
+    simp only [] at hd
+    cases hr : run flatR (getBodyS true f) (file.drop 4) with
+    | error e => rw [hr] at hd; cases hd
+    | ok r =>
+      obtain ⟨h', s'⟩ := r
+      rw [hr] at hd
+      simp only [] at hd
+      cases hp : postPassS true h' with
+      | error e => rw [hp] at hd; cases hd
+      | ok info' =>
+        rw [hp] at hd
+        simp only [Except.ok.injEq, Prod.mk.injEq] at hd
+        obtain ⟨rfl, rfl⟩ := hd
+        obtain ⟨h1, h2, h3⟩ := post_getBodyS f _ _ _ hr
+        have h4 := postPassS_fits h' info' hp
+        exact ⟨h1, h2, fun v hv => ⟨h3 v hv, h4 v hv⟩⟩
+
 /-! ### the driver's verdict -/
 
 /-- What lean/Driver/C19.lean prints for a file (the guarded reader, which refuses to materialise a
@@ -277,10 +328,27 @@ example : Inv tiny 36 { buf := ztake 36 tiny, pos := 4, off := 36 } (tiny.drop 4
   rw [fetch_init_eq] at h0
   exact (advance_inv (k := 4) h0 (by decide)).2
 
+set_option maxRecDepth 100000 in
+/-- non-vacuity: the repaired reader accepts `tiny` … -/
+example : (decodeWholeS true tiny).toOption.map (fun r => r.2.xsz) = some 52 := by rfl
+
+/-- … and refuses a dimension of length 2^63+3, which the reader as it stands accepts
+    (CDF-5: numrecs 0, one dimension "x") -/
+def negdim : Bytes :=
+  [0x43, 0x44, 0x46, 0x05,  0, 0, 0, 0, 0, 0, 0, 0,  0, 0, 0, 10,  0, 0, 0, 0, 0, 0, 0, 1,
+   0, 0, 0, 0, 0, 0, 0, 1,  0x78, 0, 0, 0,  0x80, 0, 0, 0, 0, 0, 0, 3,
+   0, 0, 0, 0,  0, 0, 0, 0, 0, 0, 0, 0,  0, 0, 0, 0,  0, 0, 0, 0, 0, 0, 0, 0]
+
+set_option maxRecDepth 100000 in
+example : (decodeWhole negdim).toOption.map (fun r => r.1.dims.map (·.size)) = some [9223372036854775811] ∧
+    (decodeWholeS true negdim).toOption.isNone = true := by
+  refine ⟨by rfl, by rfl⟩
+
 def obligations : List String := [
   "decode_total", "copy_loop_terminates", "window_safe_general", "window_safe",
   "decode_ok_wf", "decodeChunked_ok_wf", "open_ok_wf",
   "decode_work_bound_counterexample", "decode_work_unbounded", "decode_alloc_unbounded", "decode_work_bound_partial",
-  "driver_verdict_sound", "driver_big_sound"
+  "driver_verdict_sound", "driver_big_sound",
+  "strict_false_is_current", "strict_conservative", "strict_chunk_independent", "strict_ok_fits63"
 ]
 end PnVerif.Props.C19
